@@ -12,7 +12,7 @@ def extract(g, X):
     en = X.strip_comments(X.read("pdf/src/encoding.rs"))
 
     def tree_depth():
-        vals = re.findall(r"self\.walk_limited\(\s*r\s*,\s*callback\s*,\s*(\d+)\s*,", ty)
+        vals = re.findall(r"self\.walk_limited\(\s*\w+\s*,\s*\w+\s*,\s*(\d+)\s*,", ty)
         if len(vals) != 2 or vals[0] != vals[1]:
             raise ValueError("NameTree/NumberTree::walk budgets: %r" % (vals,))
         bodies = re.findall(r"fn\s+walk_limited\b", ty)
@@ -31,7 +31,7 @@ def extract(g, X):
     g.attempt([("tree_depth", "N")], "object/types.rs:NameTree::walk,NumberTree::walk", tree_depth)
 
     def cs_depth():
-        m = re.search(r"ColorSpace::from_primitive_depth\(\s*p\s*,\s*resolve\s*,\s*(\d+)\s*\)", co)
+        m = re.search(r"ColorSpace::from_primitive_depth\(\s*\w+\s*,\s*\w+\s*,\s*(\d+)\s*\)", co)
         b = X.fn_body(co, "from_primitive_depth")
         if not re.search(r"if\s+depth\s*==\s*0\s*\{\s*bail!", b) or b.count("depth-1") + b.count("depth - 1") < 2:
             raise ValueError("from_primitive_depth: budget test / decrement missing")
@@ -40,11 +40,12 @@ def extract(g, X):
 
     def fn2_guard():
         b = X.fn_body(fu, "from_dict")
-        m = re.search(r"if\s+raw\.domain\.len\(\)\s*<\s*(\d+)\s*\{\s*bail!", b)
-        idx = [int(x) for x in re.findall(r"raw\.domain\[(\d+)\]", b)]
-        if not idx or b.find("raw.domain.len()") > b.find("raw.domain["):
+        m = re.search(r"if\s+(\w+)\.domain\.len\(\)\s*<\s*(\d+)\s*\{\s*bail!", b)
+        raw = m.group(1)                                   # the raw dictionary, whatever the local is called
+        idx = [int(x) for x in re.findall(raw + r"\.domain\[(\d+)\]", b)]
+        if not idx or b.find(raw + ".domain.len()") > b.find(raw + ".domain["):
             raise ValueError("domain guard does not precede the indexing")
-        return m.group(1), str(max(idx))
+        return m.group(2), str(max(idx))
     g.attempt([("fn2_domain_min", "N"), ("fn2_domain_max_index", "N")], "object/function.rs:Function::from_dict", fn2_guard)
 
     def ps_guards():
@@ -62,5 +63,6 @@ def extract(g, X):
 
     def diff():
         b = X.fn_body(en, "from_primitive")
-        return "1" if re.search(r"gid\s*=\s*gid\.wrapping_add\(1\)", b) and not re.search(r"gid\s*\+=\s*1", b) else "0"
+        m = re.search(r"\b(\w+)\s*=\s*\1\.wrapping_add\(1\)", b)        # the running glyph code, whatever it is called
+        return "1" if m and not re.search(r"\b" + m.group(1) + r"\s*\+=\s*1", b) else "0"
     g.attempt([("diff_wrapping", "N")], "encoding.rs:Encoding::from_primitive", diff)
